@@ -46,6 +46,11 @@ def gen_query(rnd, f, single_metric_model=True):
     dims = []
     for _ in range(rnd.choice([0, 1, 1, 2])):
         dims.append((rnd.choice(names), rnd.choice([jg.jcol("s0"), jg.jcol("c1"), jg.jcol("s0"), jg.jcol("s0"), jg.tdim(rnd.choice(["day", "week", "month", "quarter", "year"]))])))
+    if rnd.random() < 0.12:
+        # ONE time dimension of one model at week AND a calendar granularity: an ISO week is not nested in a month / quarter / year, so the
+        # groups are the distinct (week, month) pairs
+        tm = rnd.choice(names)
+        dims = [(tm, jg.tdim2(g)) for g in rnd.sample(["week", rnd.choice(["month", "quarter", "year"])], 2)] + dims[:1]
     mm = rnd.choice(names)
     mets = []
     for _ in range(rnd.choice([1, 1, 2, 3])):
@@ -87,7 +92,7 @@ def field_names(q):
     """unique dimension / metric names per model; returns (dims_by_model, metrics_by_model, dim refs, metric refs)"""
     dbm, mbm, drefs, mrefs = {}, {}, [], []
     for i, (m, e) in enumerate(q["dims"]):
-        dbm.setdefault(m, []).append(("d%d" % i, e))
+        dbm.setdefault(m, []).append((jg.dim_name(i, e), e))
         drefs.append("%s.%s" % (m, jg.dim_col(i, e)))
     for j, (m, a, e, fl) in enumerate(q["mets"]):
         mbm.setdefault(m, []).append(("m%d" % j, a, e, fl))
